@@ -29,7 +29,8 @@ use alpenglow::types::slice::create_slice_with_invalid_txs;
 use alpenglow::types::Slot;
 use alpenglow::{Stake, ValidatorIndex, ValidatorInfo};
 use alpenglow::all2all::TrivialAll2All;
-use alpenglow::consensus::{Alpenglow, ConsensusMessage};
+use alpenglow::consensus::{Alpenglow, Cert, ConsensusMessage, FastFinalCert, FinalCert, FinalVote, NotarCert, NotarVote, Pool, PoolImpl, ValidatedCert};
+use alpenglow::crypto::merkle::{DoubleMerkleTree, SliceRoot};
 use alpenglow::network::UdpNetwork;
 use alpenglow::repair::{RepairRequest, RepairResponse};
 use alpenglow::types::{Slice, SliceIndex};
@@ -483,9 +484,14 @@ fn trivial_case(cx: &mut Ctx, st: &[u64], slot: u64) {
 /// `complete`: the last slice carries the last-slice marker, so the block is reconstructed once 32 shreds of every
 /// slice are in (without it the blockstore never completes the slot). In its own slot the node holds the block
 /// beforehand when `own_first` (the leader's `add_own_slice` of every slice), its shreds then come back by loopback.
-fn node_glue_case<D: Disseminator + Send + Sync + 'static>(cx: &mut Ctx, rng: &mut Rng, own: usize, n: usize, kind: &str, mk: &dyn Fn(RecNet, Arc<ValidatorEpochInfo>) -> D, order: usize, complete: bool, own_first: bool) {
+/// `finalize` > 0: while the shreds are arriving the node learns over all-to-all that the slot is finalized (the other
+/// validators decoded the block from 32 of the 64 shreds of every slice and voted): 1 a fast-finalization certificate,
+/// 2 notarization then finalization certificate, 3 finalization then notarization certificate - before the first shred
+/// the node has to forward arrives (orders 1, 2), or at a random early point, every fourth time before any shred. The
+/// shreds it is responsible for must be forwarded exactly as otherwise.
+fn node_glue_case<D: Disseminator + Send + Sync + 'static>(cx: &mut Ctx, rng: &mut Rng, own: usize, n: usize, kind: &str, mk: &dyn Fn(RecNet, Arc<ValidatorEpochInfo>) -> D, order: usize, complete: bool, own_first: bool, finalize: usize) {
     let env = cx.env;
-    cx.rec.begin_case(&format!("node-glue {kind} own={own} n={n} order={order} complete={complete} own-first={own_first}"));
+    cx.rec.begin_case(&format!("node-glue {kind} own={own} n={n} order={order} complete={complete} own-first={own_first} finalize={finalize}"));
     let sks: Vec<signature::SecretKey> = (0..n).map(|_| signature::SecretKey::new(rng)).collect();
     let vsks: Vec<aggsig::SecretKey> = (0..n).map(|_| aggsig::SecretKey::new(rng)).collect();
     let validators: Vec<ValidatorInfo> = (0..n)
@@ -514,12 +520,20 @@ fn node_glue_case<D: Disseminator + Send + Sync + 'static>(cx: &mut Ctx, rng: &m
         (node, mk(net_ref.clone(), vei.clone()))
     };
     let bs = node.verif_blockstore();
+    // a pool of the same validator that is given the same certificates (the node's own pool cannot be read)
+    let (twin, _twin_ev, _twin_rep) = {
+        let (ev_tx, ev_rx) = tokio::sync::mpsc::channel(1 << 12);
+        let (rep_tx, rep_rx) = tokio::sync::mpsc::channel(1 << 12);
+        (tokio::sync::RwLock::new(PoolImpl::new(vei.clone(), ev_tx, rep_tx)), ev_rx, rep_rx)
+    };
     // two slots: one led by the node itself, one led by somebody else
     let mut slots = Vec::new();
-    let mut s = 4 + rng.below(1 << 16);
+    // (certificates are only admitted for slots below finalized + 2 epochs = 36000; the second block names a made-up
+    //  block of the slot before it as its parent, which must not be the first slot once that one is finalized)
+    let mut s = 4 + rng.below(if finalize > 0 { 20_000 } else { 1 << 16 });
     while slots.len() < 2 {
         let l = epoch.leader(Slot::new(s)).id.as_usize();
-        if (slots.is_empty() && l == own) || (slots.len() == 1 && l != own) { slots.push((s, l)); }
+        if (slots.is_empty() && l == own) || (slots.len() == 1 && l != own) { slots.push((s, l)); if finalize > 0 { s += 1; } }
         s += 1;
     }
     let mut class = 0u64;
@@ -563,6 +577,27 @@ fn node_glue_case<D: Disseminator + Send + Sync + 'static>(cx: &mut Ctx, rng: &m
                 rng.shuffle(&mut arrivals);
             }
         }
+        // the certificates that finalize the slot and the arrival before which they are delivered
+        let certs: Vec<Cert> = if finalize == 0 { vec![] } else {
+            let roots: Vec<SliceRoot> = shreds.iter().map(|sl| sl[0].slice_root().clone()).collect();
+            let hash = DoubleMerkleTree::new(roots.iter()).get_root();
+            let vi = |i: usize| ValidatorIndex::new(i as u64);
+            let nv: Vec<NotarVote> = (0..n).map(|i| NotarVote::new(Slot::new(slot), hash.clone(), &vsks[i], vi(i))).collect();
+            let fv: Vec<FinalVote> = (0..n).map(|i| FinalVote::new(Slot::new(slot), &vsks[i], vi(i))).collect();
+            match finalize {
+                1 => vec![Cert::FastFinal(FastFinalCert::new(&nv, &validators))],
+                2 => vec![Cert::Notar(NotarCert::new(&nv, &validators)), Cert::Final(FinalCert::new(&fv, &validators))],
+                _ => vec![Cert::Final(FinalCert::new(&fv, &validators)), Cert::Notar(NotarCert::new(&nv, &validators))],
+            }
+        };
+        let cut: Option<usize> = if finalize == 0 { None } else if rng.chance(1, 4) { Some(0) } else {
+            match arrivals.iter().position(|&(j, i)| mine(j, i)) {
+                Some(p) if order == 1 || order == 2 => Some(p),
+                _ => Some(rng.below(arrivals.len() as u64 / 2 + 1) as usize),
+            }
+        };
+        let mut finalized = false;
+        let mut after_final = 0;
         if leader == own && own_first {
             for j in 0..nslices {
                 let payload = alpenglow::types::slice::SlicePayload::try_from(&payloads[j][..]).expect("slice payload decodes");
@@ -572,7 +607,18 @@ fn node_glue_case<D: Disseminator + Send + Sync + 'static>(cx: &mut Ctx, rng: &m
             }
         }
         let (mut relayed_by_own, mut after_complete) = (0, 0);
-        for &(j, i) in &arrivals {
+        for (pos, &(j, i)) in arrivals.iter().enumerate() {
+            if cut == Some(pos) {
+                for c in &certs {
+                    let r = catch(|| env.rt.block_on(node.verif_handle_all2all_message(ConsensusMessage::Cert(c.clone()))));
+                    cx.rec.oracle(r.is_ok(), "node-receive-path-does-not-forward", || format!("{kind} node {own} of {n}: handling a certificate for slot {slot} received over all-to-all panicked: {:?}", r.as_ref().err()));
+                    if let Ok(vc) = ValidatedCert::try_new(c.clone(), &epoch) {
+                        let _ = catch(|| env.rt.block_on(async { twin.write().await.add_cert(vc).await }));
+                    }
+                }
+                finalized = env.rt.block_on(async { twin.read().await.finalized_slot() }) >= Slot::new(slot);
+                cx.rec.count(&format!("node-glue:finalize={finalize}:twin-pool-finalized-the-slot={finalized}"));
+            }
             let sh = shreds[j][i].as_shred().clone();
             let want = wants[j][i].clone();
             let held = env.rt.block_on(async { bs.read().await.disseminated_block_hash(Slot::new(slot)).is_some() });
@@ -580,14 +626,15 @@ fn node_glue_case<D: Disseminator + Send + Sync + 'static>(cx: &mut Ctx, rng: &m
             let r = catch(|| env.rt.block_on(node.verif_handle_disseminator_shred(sh.clone())));
             let got: Vec<usize> = net_node.log.lock().unwrap().drain(..).map(|a| idx_of(&a)).collect();
             let got = match r { Ok(Ok(())) => Out::To(got), Ok(Err(e)) => Out::Panic(format!("io error {e}")), Err(m) => Out::Panic(m) };
-            if !want.dests().is_empty() { relayed_by_own += 1; if held { after_complete += 1; } }
+            if !want.dests().is_empty() { relayed_by_own += 1; if held { after_complete += 1; } if finalized { after_final += 1; } }
             let (_, sl, ix) = shred_position(&sh);
-            cx.rec.oracle(got == want, "node-receive-path-does-not-forward", || format!("{kind} node {own} of {n} (leader of slot {slot}: {leader}; block of {nslices} slices, arrival order {order}, block already held by the node: {held}) handling shred (slot {slot}, slice {sl}, index {ix}) from the disseminator sent to {} but Disseminator::forward of the same validator sends to {}", got.line(), want.line()));
+            cx.rec.oracle(got == want, "node-receive-path-does-not-forward", || format!("{kind} node {own} of {n} (leader of slot {slot}: {leader}; block of {nslices} slices, arrival order {order}, block already held by the node: {held}, slot finalized in the node's pool by certificates received before (variant {finalize}): {finalized}) handling shred (slot {slot}, slice {sl}, index {ix}) from the disseminator sent to {} but Disseminator::forward of the same validator sends to {}", got.line(), want.line()));
             class = fnv(class, &want.line());
         }
         let done = env.rt.block_on(async { bs.read().await.disseminated_block_hash(Slot::new(slot)).is_some() });
         cx.rec.count(&format!("node-glue:own-is-leader={}:relayed-by-own>0={}", leader == own, relayed_by_own > 0));
         cx.rec.count(&format!("node-glue:own-is-leader={}:block-held-at-the-end={done}:own-duty-after-block-held>0={}", leader == own, after_complete > 0));
+        if finalize > 0 { cx.rec.count(&format!("node-glue:own-is-leader={}:own-duty-after-slot-finalized>0={}", leader == own, after_final > 0)); }
     }
     cx.rec.end_case(class, true);
 }
@@ -720,7 +767,10 @@ fn main() {
     let extra = serde_json::json!({ "validator_counts": ns, "fanouts": fanouts });
     // ---- the node's receive path really forwards (also the leader's own shreds)
     // (arrival orders incl. "the shreds this node must forward arrive after it has reconstructed the block", Rotor and Turbine)
-    for k in 0..(if args.thorough { 32 } else { 10 }) {
+    // the first 10 (32) cases without certificates; then 8 (24) in which the slot is finalized in the node's pool
+    // (certificates over all-to-all) before the shreds it has to forward arrive
+    let (plain, fin) = if args.thorough { (32, 24) } else { (10, 8) };
+    for k in 0..plain + fin {
         let n = [4usize, 5, 7, 3][k % 4];
         let own = k % n;
         let (order, complete, own_first) = match k % 10 {
@@ -728,11 +778,12 @@ fn main() {
             9 => (3, true, k % 20 == 9),
             j => ([0, 1, 2][(j as usize - 1) % 3], true, j % 2 == 0),
         };
-        if k % 5 == 3 {
+        let finalize = if k < plain { 0 } else { 1 + (k - plain) % 3 };
+        if k % 5 == 3 || (k >= plain && (k - plain) % 4 == 1) {
             let f = [2usize, 1, 3][(k / 5) % 3];
-            node_glue_case(&mut cx, &mut rng, own, n, &format!("turbine-f{f}"), &|net, vei| Turbine::new(net, vei).with_fanout(f), order, complete, own_first);
+            node_glue_case(&mut cx, &mut rng, own, n, &format!("turbine-f{f}"), &|net, vei| Turbine::new(net, vei).with_fanout(f), order, complete, own_first, finalize);
         } else {
-            node_glue_case(&mut cx, &mut rng, own, n, "rotor", &|net, vei| Rotor::new(net, vei), order, complete, own_first);
+            node_glue_case(&mut cx, &mut rng, own, n, "rotor", &|net, vei| Rotor::new(net, vei), order, complete, own_first, finalize);
         }
     }
     cx.rec.finish(&args, extra);
